@@ -90,7 +90,7 @@ Section C04.
 
   Lemma view_prologue s st : view s (prologue c st) = view s st.
   Proof.
-    unfold prologue. destruct (aw_cnt st =? 0).
+    rewrite prologue_eq. destruct (aw_cnt st =? 0).
     - change (view s (set_aw (auto_waste c st) (aw_per (auto_waste c st)) (aw_per (auto_waste c st))))
         with (view s (auto_waste c st)). apply view_auto_waste.
     - reflexivity.
